@@ -12,7 +12,8 @@ CLAIMED = {
              "with the controller at each atomic/mutex/condvar step (real AsyncLoop code, real threads released one at a time), spurious "
              "condvar wake-ups as injected fault; history predicates S1 (no body after stop() returned), S2 (progress within 20000 fair "
              "scheduling points after start()), S3 (destructor terminates, nothing runs afterwards). Millions of distinct interleavings "
-             "per minute; a 2-instruction window is one scheduling point among ~100.",
+             "per minute; a 2-instruction window is one scheduling point among ~100. One run in ten keeps 16-19 other AsyncLoops alive around the "
+             "scripted one (whatever loops share per process is then shared).",
              design="4 (C03)", note=TRUSTED + " TASK launch on the tbb/omp lanes runs against contract-level stubs of TBB/libgomp."),
  "C12": dict(text="Seeded search over 1..8 producers x consumer scripts x interleavings at every mutex operation and (G1) every shared "
              "access of the real TransactionalBuffer/TransactionalValue; oracle: linearizability of the recorded history against a "
@@ -29,7 +30,8 @@ CLAIMED = {
              "parallel_foreach / parallel_in_blocks_of<1,3,16,64>, nesting, calls from inside tasks, uneven body cost) x worker/caller "
              "interleavings on four back-end lanes (vendored enkiTS real; TBB and libgomp as contract-level stubs; serial). Oracle "
              "during the run: index outside [0,n), second invocation, block arithmetic, body event after return; afterwards: every "
-             "index once; visibility via a happens-before check of every body's slot write against the caller's read.",
+             "index once; visibility via a happens-before check of every body's slot write against the caller's read. On the tbb/omp/serial lanes "
+             "two or three application threads may make their calls at the same time.",
              design="4 (C01)", note=TRUSTED + " TBB and libgomp are stubs implementing their documented contract; a defect needing the real library's behaviour beyond that contract is out of reach."),
  "C02": dict(text="Seeded search over mixes of schedule/async/AsyncTask with result types int, string, vector and an instrumented type "
              "whose construction and assignment take several scheduling points, consumer scripts over finished/valid/wait/get/destroy, "
@@ -41,42 +43,48 @@ CLAIMED = {
  "C13": dict(text="Seeded search over histories of initTaskingSystem(n) (n in -1,0,1..2H), numTaskingThreads() and parallel loops with a "
              "simulated core count H, every run starting from the image of a freshly started process, on four back-end lanes; oracle: "
              "reported count per the property and the number of simultaneously active loop bodies never above it at any event (reach "
-             "probe: the bound is attained).",
+             "probe: the bound is attained); the count is also queried from inside loop bodies and nested loop bodies, and by helper threads.",
              design="4 (C13)", note=TRUSTED + " On the tbb/omp lanes this exercises rkcommon's use of global_control / omp_set_num_threads against the stubs' contract."),
  "C19": dict(text="Seeded search over observer histories (create/notify/repeated notify/poll/destroy in both orders, late observers, "
              "<= 3 observables x <= 4 observers) interleaved with 1..6 threads creating, renewing, copying and moving time stamps at every "
              "atomic step; oracle: reference model of the per-observer pending flag, stamp values globally unique and increasing per thread, "
-             "copies equal their source, arena shadow for dangling pointers in either destruction order.",
+             "copies equal their source, arena shadow for dangling pointers in either destruction order. Simulated clock readings taken by different "
+             "threads may tie (environment dimension for implementations that derive stamps from a clock).",
              design="4 (C19)", note=TRUSTED),
  "C20": dict(text="Trace: seeded search over 0..8 recording threads registering concurrently (interleavings at the registry mutex), event "
              "scripts with balanced nests/markers/counters, event counts 0, 1 and around the chunk size (guarded run-time knob 2/3/8, shipped "
              "8192), simulated monotonic clock with seeded jumps, private TraceRecorder per run and the process-global free-function API "
              "(one run per forked child); oracle: strict RFC 8259 parse of the written file and per-thread event-sequence equality. "
              "Images: six writers x sizes 1..24 (40 thorough) incl. single row/column, input buffer of exactly w*h pixels in the shadowed "
-             "arena, file decoded by an independent reader.",
+             "arena, file decoded by an independent reader; a few rows of 9 MiB or more (larger than a thread's stack). Trace runs also cover begin events "
+             "still open when the log is saved and thread pools whose threads all carry the same name (matched by event sequence).",
              design="4 (C20)", note=TRUSTED + " std::ofstream / stdio file output is real (files under build/scratch). The image half has no schedule or fault dimension; it is run so the property is covered as a whole."),
  "C14": dict(text="Single task against a simulated allocator layer (link-time wrapped posix_memalign/malloc under the library, ASan+UBSan "
              "instrumented): seeded histories of alignedMalloc/alignedFree over boundary sizes (0 .. SIZE_MAX-63) x alignments 1..4096 with up to 8 "
              "live blocks, and of AlignedVector<T> (|T| 1,4,12,16,64) operations against std::vector, with allocation failure injected at a "
              "seeded allocation number; oracle: null-or-aligned, full-extent pattern write/read (ASan checks the extent), neighbour integrity "
              "after every free, 64-byte data() after every reallocating step, model equality, bad_alloc exactly when an allocation failed, "
-             "length_error for max_size()+1. Second lane: the same histories fault-free against the real tbbmalloc back end. Third lane: the same histories without sanitizer on the real glibc allocator (multi-MiB blocks next to small ones).",
+             "length_error for max_size()+1. Second lane: the same histories fault-free against the real tbbmalloc back end. Third lane: the same histories without sanitizer on the real glibc allocator (multi-MiB blocks next to small ones). Scenario c14mt (sim-tbb): 2-3 simulated threads allocate, tag, verify and free blocks over a stub tbbmalloc that may reissue released blocks from a shared cache; oracle adds 'every block passed to alignedFree reached the back end'.",
              design="5 (C14)", note="Trusted: ASan/UBSan (gcc 12) for extent checking in the _mm_malloc lane; the tbbmalloc lane's memory is not ASan-tracked (only alignment, pattern and model checks apply there) and no failure can be injected inside tbbmalloc. Seeded sampling.",
              technique="deterministic simulation with fault injection: single task over a simulated allocator device (seeded histories x injected allocation failures), reference-model oracle, decision-sequence shrinking, exact replay"),
  "C15": dict(text="Single task: seeded typed value sequences written through BufferWriter / WriteSizeCalculator, carried over a byte channel that "
              "is cut at a seeded offset (biased to value boundaries) into an exact-size heap buffer, and read back; plus write/reserve "
              "histories against a FixedBufferWriter of capacity needed-1 / needed / needed+1 / random (the 'full device' fault). Oracle: "
              "round-trip equality, end()/cursor accounting, calculator == bytes written, a value reaching past the cut throws runtime_error, "
-             "accept iff cursor+size <= capacity with no change on reject, views and accounting equal the model; ASan/UBSan on every access.",
+             "accept iff cursor+size <= capacity with no change on reject, views and accounting equal the model; ASan/UBSan on every access. Array "
+             "wrappers are written through AbstractArray<T>& and through their own static type; vectors of C strings read back as vectors of strings.",
              design="5 (C15)", note="Trusted: ASan/UBSan (gcc 12) incl. libstdc++ container annotations for over-read detection. Seeded sampling.",
              technique="deterministic simulation with fault injection: single task over a simulated byte channel / fixed-capacity device (seeded value sequences x cut offsets x capacities), reference-model oracle, shrinking, exact replay"),
  "C16": dict(text="Single task against a simulated stdio file layer (link-time wrapped fopen/fseek/ftell/fread/fclose serving the file from an "
              "exact-size heap buffer): seeded trees serialised with legal variation (quote styles, self-closing, whitespace, comments, header) "
              "must come back equal; the same documents under device faults (short read at a seeded offset, flipped/dropped/duplicated/NUL "
              "byte, open failure) and raw byte strings must yield a document or std::runtime_error, with no ASan/UBSan report, no crash and "
-             "termination within the wall budget.",
+             "termination within the wall budget. Second scenario (c16mt, simulated threads on the sim-debug lanes): 2-3 threads call readXML at the "
+             "same time, each on valid, truncated and damaged documents of its own, every interleaving at instrumented-access granularity; a valid "
+             "document must come back as its tree, a damaged one as a document or std::runtime_error, and the arena shadow flags any read outside a "
+             "call's own buffer.",
              design="5 (C16)", note="Trusted: ASan/UBSan (gcc 12). ftell/fseek failures are not injected (the property speaks about byte sequences given as a file). Inputs <= 4 KiB, nesting <= 64. Seeded sampling.",
-             technique="deterministic simulation with fault injection: single task over a simulated file device (seeded documents x short reads / corrupted bytes / open failures), outcome and tree-equality oracle under ASan/UBSan, shrinking, exact replay"),
+             technique="deterministic simulation with fault injection: single task over a simulated file device (seeded documents x short reads / corrupted bytes / open failures), outcome and tree-equality oracle under ASan/UBSan; plus seeded schedule search over concurrent readXML calls on real threads parked at compiler-inserted scheduling points; shrinking, exact replay"),
 }
 
 NA = {
